@@ -751,7 +751,7 @@ pub fn run(tier: Tier, seed: u64) -> i32 {
     p1.time_limit = Duration::from_secs(if q { 20 } else { 600 });
     p1.threads = 4;
     rep.add("streamed items (helper threads, schedule uncontrolled): input-exhaustive, d=0", explore("C04", scenarios(tier, true), p1, &known));
-    let p = Params { max_dev: if q { 1 } else { 2 }, seeds: vec![seed], time_limit: Duration::from_secs(if q { 20 } else { 900 }), ..Default::default() };
+    let p = Params { max_dev: 2, seeds: vec![seed], time_limit: Duration::from_secs(if q { 20 } else { 900 }), ..Default::default() };
     rep.add("core scripts without helper threads under schedule exploration", explore("C04", core(tier), p, &known));
     rep.rule = "a case = (channel type, per-sender item scripts over {value, streamed value, serialization failure early/late, over sender limit, over receiver limit, undecodable, cancelled at poll p}, schedule deviations where controllable); distinct = distinct (per-sender results, received sequence, receiver errors, ending); non-trivial = at least one value delivered and at least one item failed".into();
     rep.assumptions = vec![
